@@ -53,6 +53,19 @@ func runSigsetCase(seed uint64, nSteps int, stats map[string]int) (V, V) {
 			b[18] = byte(i) // keep addresses pairwise distinct (C17)
 		}
 		keys[i] = common.BytesToAddress(b).Hex()
+		// one address per validator per chain (C17): never hand the same address to two validators
+		for dup := true; dup; {
+			dup = false
+			for j := 0; j < i; j++ {
+				if keys[j] == keys[i] {
+					dup = true
+				}
+			}
+			if dup {
+				b[17]++
+				keys[i] = common.BytesToAddress(b).Hex()
+			}
+		}
 		dk = append(dk, &types.MsgDelegateKeys{ValidatorAddress: sigValAddr(i).String(), OrchestratorAddress: orchAddr(i % 200).String(),
 			ExternalAddress: keys[i], EthSignature: []byte{1}, ChainId: "ethereum"})
 	}
